@@ -117,6 +117,8 @@ def run(ck, ctx):
         short = rest2 if len(rest2) < 400 else rest2[:400] + "..."
         ck.ob("C22.2", "rebased:%s@%s" % (sc, "vacant" if sc.startswith("Vacant") else "occupied"), shift is not None and not leaked and "REBASED(B)" in rest,
               "value stored by %s: %s" % (sc, short), "src/asm.rs:%s" % t["line"])
+    ck.include("C25", ctx, "C22.3", {"C25.1"}, "count_lines/from_string/line spans of the joined source")
+    ck.include("C24", ctx, "C22.4", {"C24.3", "C24.4"}, "line lookups on the merged line map")
     ck.assume("count_lines and from_string are C25's; that B's line numbers and label positions were right before the link is C24/C23")
     ck.assume("the text identity lines(a + sep + b) = lines(a) + lines(b) for a one-newline separator is the counting argument of DESIGN.md C22")
     ck.assume("labels resolved in favour of A's definition keep A's position (A's text is a prefix of the joined text)")
